@@ -17,6 +17,9 @@ from . import gen_classes, world
 from .programs import HookMixin, _hook_point, jkey, make_class
 
 
+WorkChain.get_states_map()  # (see programs.py: base classes first)
+
+
 class WcBase(HookMixin, WorkChain):
     OUTLINE = [['step', 'a']]
     BEHAVIOUR = {'rets': {}, 'preds': {}}
@@ -44,7 +47,14 @@ class WcBase(HookMixin, WorkChain):
         elif kind == 'child':
             cls = make_class(spec[1])
             child_pid = spec[2] if len(spec) > 2 else None
-            obj = self.launch(cls, inputs=None, pid=child_pid)
+            prebuilt = w.extra.get('prechildren', {}).get(child_pid)
+            if prebuilt is not None:
+                # a process the application constructed beforehand (outside any running loop, for this chain's loop):
+                # the step starts it and waits for it
+                obj = prebuilt
+                w.loop.create_task(obj.step_until_terminated())
+            else:
+                obj = self.launch(cls, inputs=None, pid=child_pid)
         else:
             raise ValueError(spec)
         fut = obj.future() if isinstance(obj, Process) else obj
